@@ -33,7 +33,7 @@ TEXT = ("TLC explores, on a transcription of every built-in framer's enclose/ext
         "scripted I/O and AncillaryBuilder/AncillaryIter, event by event against the model and against the property "
         "itself (decoded == encoded, no panic, bounded termination, refusal iff it does not fit).")
 NOTE = ("Bounds (quick): frame lists <= 3 (lfl 1..2, delimiters, noop) / <= 2 (lfl 3..8), payload <= 2 bytes, plus 255/256 "
-        "byte payloads behind lfl = 1; every fragmentation of wires <= 5 bytes, else byte-wise, whole and every split "
+        "byte payloads behind lfl = 1; every fragmentation of wires <= 4 bytes, else byte-wise, whole and every split "
         "point; hostile strings over {00,01,02,FF} up to header + 2 (lfl 3..8: over {00,FF}, model: header + 2, replay: "
         "header); reads deliver <= 16 bytes (what reserve(16) guarantees). Ancillary: <= 3 messages, payload sizes "
         "0..17, 18 capacities, 64-bit Linux cmsghdr layout only. Trusted: scripted reader/writer of the harness, "
@@ -78,6 +78,16 @@ def _classify(run, summary, details, what):
             if run.report(sig, "%s: %s" % (p["type"], d.get("desc", "")), d.get("case")) == "violation":
                 break
     return drift
+
+
+def _sany(module, tmpdir):
+    """vlib.sany with the JVM's temporary directory inside our scratch directory (SANY and TLC unpack the
+    standard modules into java.io.tmpdir and do not always remove them)."""
+    import subprocess
+    p = subprocess.run(["java", "-Djava.io.tmpdir=" + tmpdir, "-cp", vlib._classpath(), "tla2sany.SANY", module + ".tla"],
+                       cwd=vlib.SPEC, stdout=subprocess.PIPE, stderr=subprocess.STDOUT, text=True)
+    if p.returncode != 0 or "Semantic errors" in p.stdout or "***Parse Error***" in p.stdout:
+        raise vlib.ToolError("SANY failed on %s:\n%s" % (module, p.stdout[-3000:]))
 
 
 def _timed(what, fn, *a, **kw):
@@ -174,43 +184,38 @@ def run(run, tier, replay):
             return
 
         quick = tier == "quick"
+        jtmp = os.path.join(tmp, "jvm")
+        os.makedirs(jtmp, exist_ok=True)
+        JVM = ["-Djava.io.tmpdir=" + jtmp]
         pool = cf.ThreadPoolExecutor(max_workers=3 if quick else 4)
         try:
             # SANY on the Gen_* modules also parses and checks the modules they extend (Framing, Ancillary)
             mods = ("Gen_Framing", "Gen_Ancillary") if quick else ("Framing", "Gen_Framing", "Ancillary", "Gen_Ancillary")
-            fs = [pool.submit(_timed, "sany " + m, vlib.sany, m) for m in mods]
+            fs = [pool.submit(_timed, "sany " + m, _sany, m, jtmp) for m in mods]
             build = pool.submit(_timed, "cargo build", vlib.cargo_build, "hio", ["replay_framing", "replay_ancillary"])
             for f in fs:
                 f.result()
 
             # ---- 1. model checking (all runs in parallel, <= 4 TLC workers in total) ----
             T = 900 if quick else 1700
-            mc = {}
+            RT_ONLY = ("IdleExtractPanics", "IdleExtractErr", "PollPoisoned", "ReadDataLazy")
             if quick:
-                mc["Framing/MC_Framing.cfg"] = pool.submit(
-                    _timed, "MC_Framing.cfg", _mc, "Framing", "MC_Framing.cfg", workers=2, timeout=T, deadlock=True,
-                    ignore_zero=("ReadErr", "PollAfterDone"))
-                mc["Framing/MC_Framing_env.cfg"] = pool.submit(
-                    _timed, "MC_Framing_env.cfg", _mc, "Framing", "MC_Framing_env.cfg", workers=1, timeout=T, deadlock=True,
-                    ignore_zero=("IdleExtractPanics",))
-                mc["Ancillary/MC_Ancillary.cfg"] = pool.submit(
-                    _timed, "MC_Ancillary.cfg", _mc, "Ancillary", "MC_Ancillary.cfg", workers=1, timeout=T, deadlock=True)
+                mcplan = [("Framing", "MC_Framing.cfg", 2, ("ReadErr", "PollAfterDone")),
+                          ("Framing", "MC_Framing_env.cfg", 1, ("IdleExtractPanics",)),
+                          ("Ancillary", "MC_Ancillary.cfg", 1, ())]
             else:
-                mc["Framing/MC_Framing_thorough.cfg"] = pool.submit(
-                    _mc, "Framing", "MC_Framing_thorough.cfg", workers=1, timeout=T, deadlock=True,
-                    ignore_zero=("ReadDataLazy", "IdleExtractPanics"))
-                mc["Framing/MC_Framing_hostile_thorough.cfg"] = pool.submit(
-                    _mc, "Framing", "MC_Framing_hostile_thorough.cfg", workers=2, timeout=T, deadlock=True,
-                    ignore_zero=("StartSend", "WriteSome", "WriteDone", "Close", "ReadData", "ReadErr", "PollAfterDone"))
-                mc["Framing/MC_Framing_env.cfg"] = pool.submit(
-                    _timed, "MC_Framing_env.cfg", _mc, "Framing", "MC_Framing_env.cfg", workers=1, timeout=T, deadlock=True)
-                mc["Framing/MC_Framing_trunc.cfg"] = pool.submit(
-                    _mc, "Framing", "MC_Framing_trunc.cfg", workers=1, timeout=T, deadlock=True,
-                    ignore_zero=("IdleExtractPanics", "ReadDataLazy", "ReadErr", "PollAfterDone"))
-                mc["Ancillary/MC_Ancillary_thorough.cfg"] = pool.submit(
-                    _mc, "Ancillary", "MC_Ancillary_thorough.cfg", workers=1, timeout=T, deadlock=True)
+                mcplan = [("Framing", "MC_Framing_thorough.cfg", 1, RT_ONLY),
+                          ("Framing", "MC_Framing_hostile_thorough.cfg", 2,
+                           ("StartSend", "WriteSome", "WriteDone", "Close", "ReadData", "ReadErr", "PollAfterDone")),
+                          ("Framing", "MC_Framing_env.cfg", 1, ("IdleExtractPanics",)),
+                          ("Framing", "MC_Framing_trunc.cfg", 1, RT_ONLY + ("ReadErr", "PollAfterDone")),
+                          ("Ancillary", "MC_Ancillary_thorough.cfg", 1, ())]
+            mc = {}
+            for module, cfg, w, ign in mcplan:
+                mc["%s/%s" % (module, cfg)] = pool.submit(_timed, cfg, _mc, module, cfg, workers=w, timeout=T,
+                                                         deadlock=True, ignore_zero=ign, jvm=JVM)
             # non-vacuity controls: without the named deviation the strict invariant must fail
-            # (quick: the deviation action must have fired in the model, see below, and the replay must find
+            # (quick: the deviation actions must have fired in the model, see below, and the replay must find
             #  the deviations on the real code with the model predicting the same events)
             controls = []
             if not quick:
@@ -219,7 +224,7 @@ def run(run, tier, replay):
                              ("Framing", "MC_Framing_lfl0.cfg", "Progress"),
                              ("Ancillary", "MC_Ancillary_strict.cfg", "DataSliceExact"),
                              ("Ancillary", "MC_Ancillary_strict2.cfg", "NoPanic")]
-            ctl = [pool.submit(_mc, m, c, expect=e, workers=1, timeout=600, coverage=False) for m, c, e in controls]
+            ctl = [pool.submit(_mc, m, c, expect=e, workers=1, timeout=600, coverage=False, jvm=JVM) for m, c, e in controls]
 
             # ---- 2. behaviours ----
             gens = {}
@@ -237,15 +242,17 @@ def run(run, tier, replay):
                         ("Gen_Ancillary", "Gen_Ancillary_thorough.cfg", "replay_ancillary", {})]
             for module, cfg, binname, kw in plan:
                 path = os.path.join(tmp, cfg + ".jsonl")
-                gens[cfg] = (pool.submit(_timed, cfg, _gen, module, cfg, path, workers=1, timeout=T, **kw), path, binname, module)
+                gens[cfg] = (pool.submit(_timed, cfg, _gen, module, cfg, path, workers=1, timeout=T, jvm=JVM, **kw),
+                             path, binname, module)
 
             for name, f in mc.items():
                 r = f.result()
                 run.add_model(name, r)
-            # the named deviation of the read machine is reachable in the checked model (else NoPanicModuloKnown is vacuous)
-            main = [r for n, f in mc.items() for r in [f.result()] if "hostile" in n or n.endswith("MC_Framing.cfg")]
-            if not any(r.coverage.get("IdleExtractPanics", (0, 0))[1] > 0 for r in main):
-                raise vlib.ToolError("Framing: the deviation action IdleExtractPanics never fired in the hostile model")
+            # the named deviations of the read machine are reachable in the checked model (else the
+            # "modulo known" invariants would be vacuous)
+            for act in ("IdleExtractPanics", "IdleExtractErr", "PollPoisoned"):
+                if not any(f.result().coverage.get(act, (0, 0))[1] > 0 for f in mc.values()):
+                    raise vlib.ToolError("Framing: the deviation action %s never fired in any checked model" % act)
             for f in ctl:
                 f.result()
             run.note("strict_controls_violated_as_required", ["%s/%s:%s" % c for c in controls])
